@@ -76,6 +76,7 @@ type proc struct {
 	name, ip, dir string
 	cmd           *exec.Cmd
 	args          []string
+	syncArgs      []string
 	log           *os.File
 	wantUp        bool
 	mu            sync.Mutex
@@ -153,15 +154,35 @@ func newCluster(ip, jiva, work string, rf int) (*cluster, error) {
 	return cl, nil
 }
 
+// a distinct block of receiver ports for every replica of every cluster of every worker
+var (
+	portBase  int // set from the worker number
+	portCount int
+)
+
+func portSlot() int {
+	portCount++
+	return portBase + portCount%40
+}
+
 func (cl *cluster) spawn(name, ip string, extra ...string) error {
 	p := cl.procs[name]
 	if p == nil {
 		p = &proc{name: name, ip: ip, dir: filepath.Join(cl.work, name)}
 		cl.procs[name] = p
 		cl.order = append(cl.order, name)
+		// The replica's own sync agent always hands out ssync receiver ports from 9700-9800 and
+		// the receivers listen on the wildcard address: fine for one replica per pod, cross-talk
+		// (one cluster's file landing in another's directory) when several clusters share this
+		// host's port space.  So the replica runs with --sync-agent=false and the harness starts
+		// the same `jiva sync-agent` next to it, in the replica's directory and process group,
+		// with a port range of its own.
 		p.args = append([]string{"replica", "--frontendIP", cl.ip, "--listen", ip + ":9502", "--size", fmt.Sprint(volBlocks * rawfs.BlockSize),
-			"--logtofile=false"}, extra...)
+			"--logtofile=false", "--sync-agent=false"}, extra...)
 		p.args = append(p.args, p.dir)
+		slot := portSlot()
+		p.syncArgs = []string{"sync-agent", "--listen", ip + ":9504", "--listen-port-range",
+			fmt.Sprintf("%d-%d", 20000+slot*12, 20000+slot*12+11)}
 	}
 	p.mu.Lock()
 	defer p.mu.Unlock()
@@ -182,7 +203,20 @@ func (cl *cluster) startLocked(p *proc) error {
 		return err
 	}
 	p.log = lf
-	cmd := exec.Command(cl.jiva, p.args...)
+	if err := os.MkdirAll(p.dir, 0700); err != nil {
+		return err
+	}
+	// sh: sync agent in the background (cwd = replica directory), then exec the replica so that
+	// the child's pid is the replica's and one kill of the process group takes everything
+	quote := func(args []string) string {
+		q := ""
+		for _, a := range args {
+			q += " '" + strings.ReplaceAll(a, "'", "'\\''") + "'"
+		}
+		return q
+	}
+	script := "cd '" + p.dir + "' && '" + cl.jiva + "'" + quote(p.syncArgs) + " & exec '" + cl.jiva + "'" + quote(p.args)
+	cmd := exec.Command("/bin/sh", "-c", script)
 	cmd.Stdout, cmd.Stderr = lf, lf
 	cmd.SysProcAttr = &syscall.SysProcAttr{Setpgid: true}
 	cmd.Env = append(os.Environ(), "REPLICATION_FACTOR="+os.Getenv("REPLICATION_FACTOR"))
@@ -192,6 +226,8 @@ func (cl *cluster) startLocked(p *proc) error {
 	p.cmd = cmd
 	go func() {
 		cmd.Wait()
+		// the replica is gone: its sync agent goes with it (Pdeathsig in the original set-up)
+		syscall.Kill(-cmd.Process.Pid, syscall.SIGKILL)
 		time.Sleep(500 * time.Millisecond)
 		p.mu.Lock()
 		defer p.mu.Unlock()
@@ -519,6 +555,7 @@ func main() {
 	}
 	for k, sc := range scs {
 		os.Setenv("REPLICATION_FACTOR", fmt.Sprint(sc.RF))
+		portBase = *worker * 40
 		subnet := fmt.Sprintf("127.%d.%d", 100+*worker, (k+1)%250)
 		wd := filepath.Join(*work, fmt.Sprintf("s%d", sc.ID))
 		os.MkdirAll(wd, 0700)
